@@ -871,8 +871,8 @@ func main() {
 		}
 		h := func(b ...byte) string { return hex.EncodeToString(b) }
 		corpus = append(corpus,
-			caseT{Kind: "op", Charset: "Latin1", Op: 1, S: h(0xC3)},                    // known: truncated tail
-			caseT{Kind: "op", Charset: "Latin1", Op: 1, S: h(0xE6, 0x97, 0xA5)},        // known: valid text, unrepresentable, at the tail
+			caseT{Kind: "op", Charset: "Latin1", Op: 1, S: h(0xC3)},                    // panicked before 014a463e8: truncated tail
+			caseT{Kind: "op", Charset: "Latin1", Op: 1, S: h(0xE6, 0x97, 0xA5)},        // panicked before 014a463e8: valid text, unrepresentable, at the tail
 			caseT{Kind: "op", Charset: "Latin1", Op: 1, S: h('a', 0xE6, 0x97, 0xA5)},   // same after a prefix
 			caseT{Kind: "op", Charset: "Latin1", Op: 1, S: h(0xE6, 0x97, 0xA5, 'a')},   // reported: false
 			caseT{Kind: "op", Charset: "Latin1", Op: 1, S: h(0xC3), Hid: h(0xA9)},      // hidden capacity completes the rune: str[2:] fails
@@ -896,7 +896,8 @@ func main() {
 			caseT{Kind: "op", Charset: "Binary", Op: 1, S: h(0xFF, 0x00)},
 			caseT{Kind: "op", Charset: "Utf8mb4", Op: 0, S: h(0xF0, 0x9F, 0x98, 0x80)},
 			caseT{Kind: "sql", SQL: []string{"CREATE TABLE t (a VARCHAR(10) CHARACTER SET latin1)", "INSERT INTO t VALUES ('日')", "SELECT HEX(a) FROM t"}},
-			caseT{Kind: "sql", SQL: []string{"SELECT HEX(CONVERT(_utf8mb4 x'EDA080' USING utf16))"}}, // known: HEX re-encodes the converted bytes; Encode's missing guard
+			caseT{Kind: "sql", SQL: []string{"SELECT HEX(CONVERT(_utf8mb4 x'EDA080' USING utf16))", "SELECT HEX(CONVERT(_utf8mb4 x'EFBFBD' USING utf16))", "SELECT HEX(CONVERT(_utf8mb4 x'EFBFBD' USING utf32))", "SELECT HEX(CONVERT(_utf8mb4 x'C3A9' USING latin1))"}},
+			caseT{Kind: "sql", SQL: []string{"CREATE TABLE t (a VARCHAR(10) CHARACTER SET latin1)", "INSERT INTO t VALUES ('日')", "SELECT LENGTH(a) FROM t"}}, // panicked before 014a463e8 (HEX re-encodes the converted bytes with Encode)
 			caseT{Kind: "op", Charset: "Utf16", Op: 2, S: h(0xEF, 0xBF, 0xBD)},
 			caseT{Kind: "op", Charset: "Utf32", Op: 2, S: h('a', 0xEF, 0xBF, 0xBD, 'b')},
 			caseT{Kind: "op", Charset: "Utf8mb3", Op: 2, S: h('a', 0xEF, 0xBF, 0xBD)},
